@@ -30,7 +30,10 @@ def run(chk):
     rng = chk.rng
     n = 400 if chk.tier == "quick" else 4000
     base = corpus() + [gen_scn(rng, PROFILE, chk.hist) for _ in range(n)]
-    base = [s for s in base if s.with_xq and not any(it[0] == 'R' for it in s.items)]
+    # a slot freed while somebody still references it can be taken by a service added later: two reloads, then a reply from the newcomer
+    base.append(Scn(True, False, [('old.svc', 'login')], [], 0, L("7 C 1.2.3.4 1 10.0.0.1 6667", "7 P :+x a b") + [('R', [], [], 0), ('R', [('new.svc', 'dronecheck')], [], 0)] + L("7 n Nick", "7 H", "-1 X new.svc 7_1 :OK", "7 D"), "service dropped while awaited, another added later"))
+    base.append(Scn(True, False, [('b.svc', 'login'), ('old.svc', 'login')], [], 0, L("7 C 1.2.3.4 1 10.0.0.1 6667", "7 P :+x a b", "-1 X b.svc 7_1 :OK") + [('R', [('b.svc', 'login')], [], 0), ('R', [('b.svc', 'login'), ('new.svc', 'login')], [], 0)] + L("7 n Nick", "7 P :+x c d", "7 H", "7 D"), "service dropped while awaited, another added later (2)"))
+    base = [s for s in base if s.with_xq]
     variants = []   # (scenario with one stray line inserted, index of base, position)
     for bi, scn in enumerate(base):
         # replay the shadow to know, at every position, the live tags, old tags and awaited services
@@ -39,15 +42,17 @@ def run(chk):
         states = []
         for it in scn.items:
             live = [c.tag() for c in sh.live.values()]
-            notaw = [(c.tag(), n_) for c in sh.live.values() for n_, t_ in scn.svcs if n_ not in c.out]
+            notaw = [(c.tag(), n_) for c in sh.live.values() for n_, t_ in sh.svcs if n_ not in c.out]
             states.append((live, list(old), [(c.tag(), sorted(c.out)) for c in sh.live.values()], notaw))
             before = {k: (v.tag(), sorted(v.out)) for k, v in sh.live.items()}
+            if it[0] == 'R':
+                sh.svcs = [(n_, t_.lower()) for n_, t_ in it[1]]; continue
             sh.step(it[1].decode('latin1'))
             for k, v in before.items():
                 if k not in sh.live or sh.live[k].tag() != v[0]:
                     old.append(v)
         live = [c.tag() for c in sh.live.values()]
-        states.append((live, list(old), [(c.tag(), sorted(c.out)) for c in sh.live.values()], [(c.tag(), n_) for c in sh.live.values() for n_, t_ in scn.svcs if n_ not in c.out]))
+        states.append((live, list(old), [(c.tag(), sorted(c.out)) for c in sh.live.values()], [(c.tag(), n_) for c in sh.live.values() for n_, t_ in sh.svcs if n_ not in c.out]))
         # aimed family: a known service that owes nothing answers with the correct tag while the instance awaits another one
         aimed = [(pos, "-1 %s %s %s :%s" % (kind, svc_, tag_, txt)) for pos, st_ in enumerate(states) for c_tag, c_out in
                  [(t_, o_) for t_, o_ in st_[2] or []] for tag_, svc_ in st_[3] if tag_ == c_tag and c_out
@@ -71,6 +76,9 @@ def run(chk):
     for scn, d, m in zip(base, dbase, mbase):
         if len(chk.violations) >= 3: break
         for i, it in enumerate(scn.items):
+            if it[0] != 'L':
+                if i < len(d.steps) and i < len(m) and m[i] != d.steps[i]: break
+                continue
             toks = it[1].decode('latin1').split(' ')
             if len(toks) > 1 and toks[1] in ('X', 'x') and i < len(d.steps) and i < len(m):
                 if not m[i][0] and d.steps[i][0]:
@@ -84,8 +92,9 @@ def run(chk):
     dvar = run_daemons(impl, [v[0] for v in variants])
     mvar = run_model(drv, [v[0] for v in variants])
     distinct = set()
+    ncorr = 0; nreal = 0
     for (vs, bi, pos, line), dv, mv in zip(variants, dvar, mvar):
-        if len(chk.violations) >= 4: break
+        if nreal >= 3: break
         chk.cov["evaluations"] += 1
         db = dbase[bi]
         got = [s for i, s in enumerate(dv.steps) if i != pos]
@@ -101,9 +110,12 @@ def run(chk):
         if why:
             chk.violation("a reply that names no awaited (instance, service) changed the daemon's behaviour: " + why,
                           "history with the stray line:\n%s\n\nwith the stray line:\n%s\n\nwithout it:\n%s" % (vs.describe(), fmt_steps(vs, dv.steps), fmt_steps(base[bi], db.steps)), "stray:" + line)
+            nreal += 1
             continue
         # correspondence: the model must agree on the variant as well (it proves the no-op for every stray reply)
         if [(l, n_) for l, n_ in dv.steps] != mv:
+            ncorr += 1
+            if ncorr > 2: continue          # keep looking for a reply that is itself acted upon (the differential above)
             k = next((i for i in range(min(len(mv), len(dv.steps))) if mv[i] != dv.steps[i]), 0)
             chk.violation("model and daemon disagree on a history with a stray reply (step %d: daemon %r, model %r)" % (k, dv.steps[k] if k < len(dv.steps) else None, mv[k] if k < len(mv) else None),
                           replay_text(vs, dv, mv), "corr:stray", found_input=False)
